@@ -16,10 +16,10 @@ typedef track_alloc<uint8_t> A;
 typedef cpc_sketch_alloc<A> Cpc;
 typedef cpc_union_alloc<A> CpcU;
 
-struct CCfg { uint8_t lg_k1, lg_k2; uint64_t seed; uint64_t domain; uint32_t max_batch; };
+struct CCfg { uint8_t lg_k1, lg_k2; uint64_t seed, seed2; uint64_t domain; uint32_t max_batch; };
 static CCfg gen_ccfg(Rng& r) {
   CCfg c; c.lg_k1 = static_cast<uint8_t>(r.range(4, 11)); c.lg_k2 = r.coin() ? c.lg_k1 : static_cast<uint8_t>(r.range(4, 11));
-  c.seed = r.coin() ? DEFAULT_SEED : r.next();
+  c.seed = r.coin() ? DEFAULT_SEED : r.next(); c.seed2 = r.next();
   c.domain = r.chance(0.3) ? 100 : (1ULL << 40);
   c.max_batch = r.chance(0.3) ? 10 : (r.coin() ? 200 : 6000);
   return c;
@@ -53,7 +53,7 @@ struct CpcFam {
   static const char* name() { return "cpc"; }
   static Cfg gen_cfg(Rng& r) { return gen_ccfg(r); }
   static std::string cfg_str(const Cfg& c) { return ccfg_str(c); }
-  static void construct(void* mem, const Cfg& c, Arena* a, Rng& r) { new (mem) Cpc(r.coin() ? c.lg_k1 : c.lg_k2, c.seed, A(a)); }
+  static void construct(void* mem, const Cfg& c, Arena* a, Rng& r) { new (mem) Cpc(r.coin() ? c.lg_k1 : c.lg_k2, r.coin() ? c.seed : c.seed2, A(a)); }
   static void mutate(Obj& o, const Cfg& c, Rng& r, Arena*) { feed(o, c, r); }
   static std::string readout(const Obj& o, const Cfg&) { return cpc_readout(o); }
   static void query(const Obj& o, const Cfg&, Rng&) { (void)o.get_lower_bound(1); (void)o.get_upper_bound(3); auto s = o.to_string(); (void)s.size(); }
@@ -61,12 +61,13 @@ struct CpcFam {
   static void merge_ref(Obj&, const Obj&, const Cfg&) {}
   static void merge_move(Obj&, Obj&&, const Cfg&) {}
   static void reset(Obj&, const Cfg&) {}
-  static void roundtrip(void* mem, const Obj& src, const Cfg& c, Arena* a, Rng& r) {
-    if (r.coin()) { auto b = src.serialize(8); new (mem) Cpc(Cpc::deserialize(b.data() + 8, b.size() - 8, c.seed, A(a))); }
+  static void roundtrip(void* mem, const Obj& src, const Cfg&, Arena* a, Rng& r) {
+    const uint64_t seed = src.seed;   // private member (unit is built with -fno-access-control): the object's own seed
+    if (r.coin()) { auto b = src.serialize(8); new (mem) Cpc(Cpc::deserialize(b.data() + 8, b.size() - 8, seed, A(a))); }
     else {
       std::stringstream ss(std::ios::in | std::ios::out | std::ios::binary);
       src.serialize(ss);
-      new (mem) Cpc(Cpc::deserialize(ss, c.seed, A(a)));
+      new (mem) Cpc(Cpc::deserialize(ss, seed, A(a)));
     }
   }
   static std::string mode(const Obj& o, const Cfg&) { return flavor_of(o); }
